@@ -183,22 +183,35 @@ func init() {
 				if !e.anchor("R2", "core.Table.SearchData", sd == nil) {
 					return
 				}
+				// the searches of the clients (directly or through a shared helper, one site per method) …
+				type sdSite struct {
+					call      *ssa.Call
+					construct string
+					conds     []string
+				}
+				var sites []sdSite
+				seenCall := map[*ssa.Call]bool{}
+				for _, s := range e.searchSites() {
+					seenCall[s.call] = true
+					sites = append(sites, sdSite{s.call, s.role + ".Client." + s.method + "->SearchData", e.queryInputField(s, "ConditionExpression")})
+				}
+				// … and any other caller of the search
 				for _, c := range e.callersOf(sd) {
 					call, ok := c.(*ssa.Call)
-					if !ok {
+					if !ok || seenCall[call] {
 						continue
 					}
-					fn := call.Parent()
-					construct := e.fname(fn) + "->SearchData"
-					var qi ssa.Value
-					for _, a := range call.Call.Args {
-						if strings.HasSuffix(typeName(a.Type()), "QueryInput") {
-							qi = a
-						}
+					var os []string
+					for _, cv := range e.structFieldStores(qiArg(call), "ConditionExpression") {
+						os = append(os, e.origins(cv)...)
 					}
+					sites = append(sites, sdSite{call, e.fname(call.Parent()) + "->SearchData", os})
+				}
+				for _, st := range sites {
+					call, construct := st.call, st.construct
 					bad := false
-					for _, cv := range e.structFieldStores(qi, "ConditionExpression") {
-						if !isNilConst(cv) {
+					for _, o := range st.conds {
+						if o != "const:nil" {
 							bad = true
 						}
 					}
